@@ -96,6 +96,43 @@ impl Table {
         let index_block: DataBlockReader =
             Table::get_data_block_reader_from_disk(&*file, footer.get_index_handle())?;
 
+        /*
+        The footer is not covered by a checksum. If its index handle has been damaged so that it
+        names another intact block of the file (e.g. a data block), that block parses as an index
+        without complaint and lookups would quietly answer "not in this file". The values of a
+        real index are the handles of the data blocks, which lie back to back from the start of
+        the file up to the first meta block. Check that before trusting the index.
+        */
+        log::debug!("Checking that the index entries are the handles of consecutive data blocks");
+        let mut expected_block_offset: u64 = 0;
+        let mut index_block_iter = index_block.iter();
+        index_block_iter.seek_to_first()?;
+        while let Some((_key, raw_handle)) = index_block_iter.current() {
+            let block_handle = BlockHandle::try_from(raw_handle)?;
+            if block_handle.get_offset() != expected_block_offset {
+                return Err(ReadError::FailedToParse(format!(
+                    "Failed to open the table file. The index names a block at offset {} where \
+                    offset {} was expected.",
+                    block_handle.get_offset(),
+                    expected_block_offset
+                )));
+            }
+
+            expected_block_offset = block_handle
+                .get_offset()
+                .saturating_add(block_handle.get_size())
+                .saturating_add(BLOCK_DESCRIPTOR_SIZE_BYTES as u64);
+            if index_block_iter.next().is_none() {
+                break;
+            }
+        }
+        if expected_block_offset > file_length - (SIZE_OF_FOOTER_BYTES as u64) {
+            return Err(ReadError::FailedToParse(
+                "Failed to open the table file. The index names blocks beyond the end of the file."
+                    .to_string(),
+            ));
+        }
+
         log::debug!("Reading and parsing the metaindex block");
         let metaindex_block: MetaIndexBlockReader =
             Table::get_data_block_reader_from_disk(&*file, footer.get_metaindex_handle())?;
